@@ -7,7 +7,7 @@ EXTRA = {  # besides the property's own check
     "C03-m2": ["C11"], "C09-m1": ["C18"], "C09-m2": ["C01"], "C02-m2": ["C09", "C08"], "C05-m1": ["C01"], "C05-m2": ["C01"],
     "C02-r2m2": ["C04"], "C03-r2m1": ["C07"], "C03-r2m2": ["C11"], "C09-r2m1": ["C02"], "C09-r2m2": ["C01"], "C13-r2m1": ["C14"], "C04-r2m2": ["C11"],
     "C05-r2m1": ["C16"], "C05-r2m2": ["C03"], "C12-r2m1": ["C06"], "C17-r2m2": ["C18"], "C16-r2m1": ["C07"], "C07-r2m1": ["C16"],
-    "C10-m1": ["C08"], "C08-m1": ["C10"], "C12-m2": ["C07"], "C15-m1": ["C01"], "C16-m2": ["C12"], "C04-m2": ["C09"],
+    "C10-m1": ["C08"], "C06-r3m2": ["C08"], "C12-r3m1": ["C08"], "C08-m1": ["C10"], "C12-m2": ["C07"], "C15-m1": ["C01"], "C16-m2": ["C12"], "C04-m2": ["C09"],
 }
 names = sys.argv[1:] or sorted(p.name for p in (V / "seeded").iterdir() if (p / "patch.diff").exists())
 rows = []
